@@ -238,6 +238,26 @@ func fieldOfChan(ch ssa.Value) string {
 			return fieldName(fa.X.Type(), fa.Field)
 		}
 	}
+	// a local that holds the channel until it is disabled (announce := iter.waiting; ...; announce = nil): the channel of its
+	// non-nil assignments
+	if phi, ok := v.(*ssa.Phi); ok {
+		f0, n := "", 0
+		for _, e := range phi.Edges {
+			if e == ssa.Value(phi) || isNilConst(e) {
+				continue
+			}
+			if _, nested := e.(*ssa.Phi); nested {
+				return ""
+			}
+			f := fieldOfChan(e)
+			if f == "" || (n > 0 && f != f0) {
+				return ""
+			}
+			f0 = f
+			n++
+		}
+		return f0
+	}
 	if p, ok := v.(*ssa.Parameter); ok {
 		f0 := ""
 		for i, a := range helperChanArgs(p) {
